@@ -20,6 +20,7 @@ from __future__ import annotations
 
 import copy
 import itertools
+import os
 import math
 import warnings
 
@@ -106,6 +107,26 @@ def check_batcher(t, n, bs, ratio, mode, shuffle, rng, prescribed=None, epochs=2
                 raise Broken(f"the library did not draw its order from the owned Generator: yielded {flat}, prescribed {want}")
         if not shuffle and flat != train:
             fails.append(("no_shuffle_keeps_order", f"shuffle=False but order {flat} != {train}"))
+    # two epochs in flight on ONE batcher object (a nested loop, zip(b, b), an epoch started from a callback): each
+    # epoch on its own must still visit every training index exactly once. Batches are copied when they are yielded.
+    if len(train) > 0:
+        for pause in sorted({1, max(1, (nb or 1) // 2), nb or 1}):
+            outer, it = [], iter(b)
+            inner = None
+            for k, x in enumerate(it, 1):
+                outer.append(np.array(x).tolist())
+                if k == pause:
+                    inner = [np.array(y).tolist() for y in b]
+                    if pause % 2 == 0:
+                        inner2 = [np.array(y).tolist() for y in b.iter_val()]
+            of, inf = [i for x in outer for i in x], [i for x in (inner or []) for i in x]
+            if sorted(of) != sorted(train) or (inner is not None and sorted(inf) != sorted(train)):
+                fails.append(("each_training_index_exactly_once_with_overlapping_epochs", f"an epoch started after batch {pause} of a running epoch: outer epoch yielded {outer}, inner epoch {inner}, training set {train}"))
+                break
+        pairs = [(np.array(x).tolist(), np.array(y).tolist()) for x, y in zip(b, b)]
+        za, zb = [i for x, _ in pairs for i in x], [i for _, y in pairs for i in y]
+        if sorted(za) != sorted(train) or sorted(zb) != sorted(train):
+            fails.append(("each_training_index_exactly_once_with_overlapping_epochs", f"zip(b, b): first epoch {[x for x, _ in pairs]}, second epoch {[y for _, y in pairs]}, training set {train}"))
     vb = [np.asarray(x).tolist() for x in b.iter_val()]
     vflat = [i for x in vb for i in x]
     if sorted(vflat) != sorted(val) or len(set(vflat)) != len(vflat):
@@ -456,6 +477,66 @@ def w_shared_generator(item, seed=0):
     return t
 
 
+NEUTRAL_OPS = ["to_cpu", "save_zip", "save_dir", "device_kw", "get_props", "deepcopy_rng_free"]
+
+
+def w_neutral_ops(item, seed=0, scratch="/tmp"):
+    """Calls that are no reconstruction steps — moving to the (same) device, saving a checkpoint, reading the public
+    properties — inserted at every position of a continued mini-batch run: the loss history must be the history of the
+    same run without them ("two runs started from the same seed produce identical loss histories"; a checkpoint written
+    on the way is not a different run)."""
+    import shutil
+
+    J, obj_type, modes, bs, pseed = item[:5]
+    t = Tally()
+    steps = [2, 1, 2]  # reconstruct(2, reset=True), then continue 1, then continue 2
+    sub = os.path.join(scratch, f"c09-{os.getpid()}")
+    os.makedirs(sub, exist_ok=True)
+
+    def run(neutral=None, pos=None):
+        P = build_problem(tiny_cfg(J, obj_type, modes, 1), seed, [J, modes, 1])
+        P.ptycho.rng = int(pseed)
+        for k, n in enumerate(steps):
+            if k == 0:
+                P.ptycho.reconstruct(num_iters=n, reset=True, batch_size=bs, optimizer_params=copy.deepcopy(ADAM))
+            else:
+                P.ptycho.reconstruct(num_iters=n, batch_size=bs)
+            if neutral is not None and pos == k:
+                pt = P.ptycho
+                if neutral == "to_cpu":
+                    pt.to("cpu")
+                elif neutral in ("save_zip", "save_dir"):
+                    target = os.path.join(sub, "ckpt.zip" if neutral == "save_zip" else "ckpt")
+                    pt.save(target, mode="o", store="zip" if neutral == "save_zip" else "dir", verbose=0)
+                    shutil.rmtree(target, ignore_errors=True) if os.path.isdir(target) else os.remove(target)
+                elif neutral == "device_kw":
+                    pt.reconstruct(num_iters=0, device="cpu", batch_size=bs)
+                elif neutral == "get_props":
+                    _ = (np.array(pt.obj), np.array(pt.probe), list(pt.iter_losses), dict(pt.iter_lrs), pt.constraints)
+                elif neutral == "deepcopy_rng_free":
+                    _ = copy.deepcopy(list(pt.iter_losses))
+        return np.array(P.ptycho.iter_losses, dtype=np.float64)
+
+    try:
+        with warnings.catch_warnings():
+            warnings.simplefilter("ignore")
+            ref = run()
+            for neutral in NEUTRAL_OPS:
+                for pos in range(len(steps) - 1):  # after step pos, i.e. before a continued run
+                    case = {"part": "neutral_op", "J": J, "obj_type": obj_type, "modes": modes, "batch_size": bs, "ptycho_seed": pseed, "op": neutral, "after_step": pos}
+                    try:
+                        got = run(neutral, pos)
+                    except Exception as ex:  # noqa: BLE001
+                        t.fail({"relation": "neutral_call_accepted", "part": "neutral_op", "op": neutral}, case, f"{neutral} after step {pos} raised {type(ex).__name__}: {str(ex)[:200]}")
+                        continue
+                    t.case(key=case, nontrivial=True, outcome=[round(float(x), 7) for x in got])
+                    if got.tobytes() != ref.tobytes():
+                        t.fail({"relation": "loss_history_unchanged_by_a_call_that_is_no_reconstruction_step", "part": "neutral_op", "op": neutral}, case, f"{neutral} after step {pos} (steps {steps}, batch_size {bs}): losses {got.tolist()}, without it {ref.tolist()}")
+    finally:
+        shutil.rmtree(sub, ignore_errors=True)
+    return t
+
+
 def w_determinism(item, seed=0):
     J, obj_type, modes, bs, pseed = item
     t = Tally()
@@ -518,6 +599,7 @@ def run(ctx):
     rh += [b + (sp, fr) for b in base for sp in SEED_SPELLINGS for fr in (True, False) if not (sp == "int" and fr)]
     big = [(4, "complex", 1, 2, bsd, None) for bsd in BIG_SEEDS] + ([] if q else [(12, "complex", 1, 4, bsd, (0.25, "random")) for bsd in BIG_SEEDS])
     rh += [b + (sp, fr) for b in big for sp in ("int", "np_generator") for fr in (True, False)]
+    ctx.pmap(w_neutral_ops, [(4, "complex", 1, 2, 5), (12, "complex", 1, 5, 11)] if q else [(4, "complex", 1, 2, 5), (4, "potential", 2, 1, 11), (12, "complex", 1, 5, 11), (12, "potential", 2, 3, 5)], chunk=1, label="calls that are no reconstruction steps", seed=ctx.seed, scratch=ctx.scratch)
     ctx.pmap(w_shared_generator, [(4, "complex", 1, 2, 5), (12, "complex", 1, 5, 11)] if q else [(4, "complex", 1, 2, 5), (4, "potential", 2, 1, 11), (12, "complex", 1, 5, 11), (12, "potential", 2, 3, 5)], chunk=1, label="one Generator object, several holders", seed=ctx.seed)
     ctx.pmap(w_reset_histories, rh, chunk=1, label="reset after every history", seed=ctx.seed, depth=2 if q else 3)
     if m.extra["different_seed_cases"] and m.extra["different_seed_differs"] == 0:
@@ -540,6 +622,8 @@ def replay(ctx, case):
         t = w_invariance((case["J"], case["obj_type"], case["modes"], case["slices"], case["loss_type"]), seed=ctx.seed, quick=True)
     elif part == "reset_history":
         t = w_reset_histories((case["J"], case["obj_type"], case["modes"], case["batch_size"], case["ptycho_seed"], case.get("val"), case.get("seed_spelling", "int"), case.get("first_reset", True)), seed=ctx.seed, depth=len(case["history"]))
+    elif part == "neutral_op":
+        t = w_neutral_ops((case["J"], case["obj_type"], case["modes"], case["batch_size"], case["ptycho_seed"]), seed=ctx.seed, scratch=ctx.scratch)
     elif part == "shared_generator":
         t = w_shared_generator((case["J"], case["obj_type"], case["modes"], case["batch_size"], case["ptycho_seed"]), seed=ctx.seed)
     elif part == "determinism":
